@@ -355,6 +355,56 @@ pub fn generate(prop: &str, thorough: bool, rng: &mut Rng) -> Case {
             }
             clients.push(ops);
         }
+        "C09" => {
+            let keys = 8 + rng.below(9) as u64;
+            cfg.insert("keys".into(), keys as i64);
+            cfg.insert("policy".into(), 1);
+            cfg.insert("tomb".into(), 0);
+            cfg.insert("mem_cap".into(), 2 + rng.below(3) as i64);
+            cfg.insert("inmem_mod".into(), 0);
+            cfg.insert("ondisk_mod".into(), 0);
+            cfg.insert("block_pages".into(), 8);
+            let flushers = 1 + rng.below(3) as i64;
+            let clean_thr = 1 + rng.below(2) as i64;
+            cfg.insert("flushers".into(), flushers);
+            cfg.insert("clean_thr".into(), clean_thr);
+            // down to the smallest configuration the engine accepts without warning
+            let min_blocks = 2 * (flushers + clean_thr);
+            cfg.insert("blocks".into(), min_blocks + rng.below(5) as i64);
+            cfg.insert("reclaimers".into(), 1 + rng.below(2) as i64);
+            cfg.insert("reinsert_mod".into(), if rng.chance(1, 2) { 3 } else { 0 });
+            cfg.insert("picker".into(), 0);
+            cfg.insert("max_steps".into(), 30_000_000);
+            let tight = rng.chance(1, 4);
+            fit_buffers(&mut cfg, rng, tight);
+            let with_deletes = rng.chance(1, 2);
+            let capacity_pages = (cfg["blocks"] * 8) as usize;
+            let target_pages = capacity_pages * (3 + rng.below(if thorough { 6 } else { 4 }));
+            let mut ops = vec![];
+            let mut pages = 0usize;
+            while pages < target_pages {
+                let k = rng.below(keys as usize) as u64;
+                match rng.below(20) {
+                    0..=13 => {
+                        let p = 1 + rng.below(3) as u32;
+                        pages += p as usize;
+                        ops.push(Op::Insert { k, ver: 0, w: 100 + p, loc: 0, hold: false });
+                    }
+                    14 | 15 => ops.push(Op::Get { k, hold: false }),
+                    16 => {
+                        if with_deletes {
+                            ops.push(Op::Remove { k })
+                        } else {
+                            ops.push(Op::Get { k, hold: false })
+                        }
+                    }
+                    17 => ops.push(Op::Wait),
+                    18 => ops.push(Op::Yield { n: 1 + rng.below(3) as u8 }),
+                    _ => ops.push(Op::EvictAll),
+                }
+            }
+            clients.push(ops);
+        }
         "C08" => {
             cfg.insert("tp".into(), if rng.chance(2, 3) { rng.below(4) as i64 } else { 4 + rng.below(15) as i64 });
             cfg.insert("items".into(), (4 + rng.below(14)) as i64 * scale as i64);
